@@ -531,12 +531,33 @@ func (w *World) Flip(t *Tok) *Tok {
 	if err != nil || len(raw) == 0 {
 		return &Tok{S: "AAAA" + t.S, Kind: "tampered"}
 	}
-	i := w.R.IntN(len(raw))
-	if w.R.Bool() && len(raw) > 16 { // prefer the body: exact bit flips of the plaintext
-		i = 16 + w.R.IntN(len(raw)-16)
+	// A flip that still decrypts to "id:subject" must leave the subject printable ASCII: a subject
+	// with invalid UTF-8 cannot be carried by JSON (JWT sub, userinfo), which is outside the model.
+	for try := 0; ; try++ {
+		b := append([]byte(nil), raw...)
+		i := w.R.IntN(len(b))
+		if w.R.Bool() && len(b) > 16 { // prefer the body: exact bit flips of the plaintext
+			i = 16 + w.R.IntN(len(b)-16)
+		}
+		b[i] ^= byte(1 << w.R.IntN(8))
+		out := &Tok{S: base64.RawURLEncoding.EncodeToString(b), Kind: "tampered"}
+		plain, ok := w.F.OpenBearer(out.S)
+		if !ok || !strings.Contains(plain, ":") || printable(plain) || try > 30 {
+			if try > 30 {
+				return w.Garbage()
+			}
+			return out
+		}
 	}
-	raw[i] ^= byte(1 << w.R.IntN(8))
-	return &Tok{S: base64.RawURLEncoding.EncodeToString(raw), Kind: "tampered"}
+}
+
+func printable(s string) bool {
+	for i := 0; i < len(s); i++ {
+		if s[i] < 0x20 || s[i] > 0x7e {
+			return false
+		}
+	}
+	return true
 }
 
 func (w *World) Garbage() *Tok {
@@ -604,6 +625,9 @@ func (w *World) TamperJWT(t *Tok) *Tok {
 		return w.Garbage()
 	}
 	body := strings.Replace(string(raw), `"sub":"`+t.jwt.sub+`"`, `"sub":"mallory"`, 1)
+	if body == string(raw) { // no sub member to rewrite (e.g. an ID token issued without openid scope)
+		return w.Garbage()
+	}
 	parts[1] = base64.RawURLEncoding.EncodeToString([]byte(body))
 	d := *t.jwt
 	d.sub, d.sigOK = "mallory", false
